@@ -169,6 +169,58 @@ def gen_cases(tier, rng):
     return cases
 
 
+# ---- Hilbert ordering (dimension 3): automaton tables are regenerated from the source (Tie A); the oracle works on the
+# implementation's own coordinate maps: it first collects unbox of every index of the level from the run itself.
+def gen_hilbert(tier, rng):
+    cases = []
+    for H in ((2, 3, 4) if tier == "quick" else (2, 3, 4, 5)):
+        for l in range(0, H):
+            ncell = 1 << (3 * l)
+            idxs = range(ncell) if ncell <= 512 else [rng.below(ncell) for _ in range(300)]
+            for i in idxs:
+                cases.append("hunbox %d %d" % (H, i))
+                cases.append("hparent %d %d" % (H, i))
+                cases.append("hccode %d %d" % (H, i))
+                if ncell <= 64 or rng.below(6) == 0:
+                    cases.append("hilist %d %d %d %d" % (H, rng.below(2), l, i))
+                    cases.append("hnlist %d %d %d %d %d" % (H, rng.below(2), l, rng.below(2), i))
+        L = H - 1
+        for _ in range(40):
+            co = [rng.below(1 << L) for _ in range(3)]
+            cases.append("hbox %d %s" % (H, " ".join(map(str, co))))
+    return cases
+
+
+def hilbert_oracles(rep, cases, impl):
+    """round trip and parent containment, from the implementation's own answers"""
+    unb, par = {}, {}
+    for c, i in zip(cases, impl):
+        t = c.split()
+        if i.startswith("ABORT"): continue
+        if t[0] == "hunbox": unb[(int(t[1]), int(t[2]))] = [int(x) for x in i.split()]
+        elif t[0] == "hparent": par[(int(t[1]), int(t[2]))] = int(i)
+    # bijection at the leaf level (exhaustive levels only)
+    byH = {}
+    for (H, i), co in unb.items():
+        byH.setdefault(H, {})[i] = co
+    for H, m in byH.items():
+        L = H - 1
+        leaf = {i: co for i, co in m.items() if i < (1 << (3 * L))}
+        if len(leaf) == (1 << (3 * L)):
+            if len(set(tuple(v) for v in leaf.values())) != len(leaf) or any(max(v) >= (1 << L) or min(v) < 0 for v in leaf.values()):
+                rep.violation(dict(kind="oracle", clause="hilbert-bijection", has_input=True), "Hilbert height %d: index -> coordinates is not a bijection onto the leaf grid" % H, dict(H=H))
+    # parent geometrically contains the child: unbox(parent i) = unbox(i) / 2, at every level of every height
+    for (H, i), p in par.items():
+        if (H, i) in unb and (H, p) in unb and i > 0:
+            child, parent = unb[(H, i)], unb[(H, p)]
+            # only meaningful when i is read at a level l >= 1; every index i >= 8^(l-1) of level l has p at level l-1
+            if parent != [x // 2 for x in child]:
+                lvl = max(1, (i.bit_length() + 2) // 3)
+                rep.violation(dict(kind="oracle", clause="hilbert-parent-containment", has_input=True, ordering="hilbert"),
+                              "Hilbert ordering, height %d: parent(%d) = %d has coordinates %s, the cell containing %s is %s" % (H, i, p, parent, child, [x // 2 for x in child]),
+                              dict(H=H, index=i, parent=p, unbox_child=child, unbox_parent=parent))
+
+
 def nontrivial(c, i):
     op = c.split()[0]
     if op in ("ilist", "nlist"):
@@ -193,6 +245,11 @@ def run(tier, seed):
         # shard for parallelism
         vlib.differential(rep, binary, cases, sdir, "index", canon=canon, oracle=oracle, nontrivial=nontrivial,
                           clause=lambda c: c.split()[0] + ":d" + c.split()[1] + (":per" + c.split()[2] if c.split()[0] in ("ilist", "nlist", "iblock", "nblock") else ""))
+        hbin = binary
+        hcases = gen_hilbert(tier, rng)
+        himpl, hmodel = vlib.differential(rep, hbin, hcases, sdir, "hilbert", canon=canon, nontrivial=lambda c, i: True,
+                                          clause=lambda c: "hilbert:" + c.split()[0])
+        hilbert_oracles(rep, hcases, himpl)
         rep.coverage["rule"] = ("exhaustive: every cell of levels 0..%s (d=1..4) x {unbox,box,parent,child code, interaction list (periodic/not), neighbour list (periodic/not x upper filter)}; all codes; "
                                 "random cells up to the UB-free level %s; random groups for the block builders. non-trivial = non-empty list / any scalar query; distinct by case text" % ({d: EXH[d][0 if tier == 'quick' else 1] for d in EXH}, SAFE_LEVEL))
         rep.coverage["exhaustive"] = False
